@@ -131,10 +131,23 @@ def _parse_xml_string(xml_string, parser, charset=None):
     return root, xmlids
 
 
+# how many elements resolving multi-reference values may add to a request: this
+# many, or this many times the number of elements it came with.
+MULTIREF_MIN_BUDGET = 10000
+MULTIREF_MAX_AMPLIFICATION = 5
+
+
 # see http://www.w3.org/TR/2000/NOTE-SOAP-20000508/
 # section 5.2.1 for an example of how the id and href attributes are used.
-def resolve_hrefs(element, xmlids, _path=()):
-    for e in element:
+def resolve_hrefs(element, xmlids, _path=(), _budget=None):
+    if _budget is None:
+        # every reference to a value adds a copy of it to the request, and
+        # values that refer to values multiply. what this may add is bounded
+        # by what the request came with.
+        size = sum(1 for _ in element.iter())
+        _budget = [max(MULTIREF_MIN_BUDGET, MULTIREF_MAX_AMPLIFICATION * size)]
+
+    for e in list(element):
         if e.get('id'):
             continue # don't need to resolve this element
 
@@ -144,7 +157,7 @@ def resolve_hrefs(element, xmlids, _path=()):
             # user's own model.
             if not e.get('href').startswith('#') or len(e) > 0 or \
                                       (e.text is not None and e.text.strip()):
-                resolve_hrefs(e, xmlids, _path)
+                resolve_hrefs(e, xmlids, _path, _budget)
                 continue
 
             key = e.get('href')[1:]
@@ -153,22 +166,27 @@ def resolve_hrefs(element, xmlids, _path=()):
                 continue
             if key in _path:
                 raise Fault('Client.SoapError', "Circular href %r" % key)
-            resolve_hrefs(resolved_element, xmlids, _path + (key,))
+            resolve_hrefs(resolved_element, xmlids, _path + (key,), _budget)
 
-            # copies the attributes
-            [e.set(k, v) for k, v in resolved_element.items()]
+            _budget[0] -= sum(1 for _ in resolved_element.iter())
+            if _budget[0] < 0:
+                raise Fault('Client.SoapError', "The multi-reference values "
+                                "of this request are too large when expanded")
 
-            # copies the children. appending them as they are would take them
-            # away from the referenced element, which can be the target of
-            # other references, or an accessor itself.
-            [e.append(deepcopy(child))
-                                   for child in resolved_element.getchildren()]
-
-            # copies the text
-            e.text = resolved_element.text
+            # the accessor stands for a copy of the referenced element (its
+            # attributes, children and text) under the name of the accessor.
+            # moving the children would take them away from the referenced
+            # element, which can be the target of other references, or an
+            # accessor itself.
+            value = deepcopy(resolved_element)
+            value.tag = e.tag
+            value.tail = e.tail
+            if value.get('href') is None:
+                value.set('href', e.get('href'))
+            element.replace(e, value)
 
         else:
-            resolve_hrefs(e, xmlids, _path)
+            resolve_hrefs(e, xmlids, _path, _budget)
 
     return element
 
